@@ -39,7 +39,15 @@ def gen_rt(base, name, opts):
     d = os.path.join(base, name)
     out = os.path.join(d, "gen")
     os.makedirs(out)
-    y, hpp, cpp = cgen.gen_library(K.base_cases(), True, dict({"wrap_fortran": True}, **opts))
+    if name.startswith("rt-wide"):
+        # the wide member of the TLA+ grammar (specs/LibGenPairs.tla); with F_CFI without the functions of the
+        # recorded C05 finding, on which Shroud stops
+        from rt import libgen
+        lib = libgen.without_cfi_conflict(libgen.wide_library(**opts))
+        cases = libgen.cases_of(lib)
+    else:
+        cases = K.base_cases() + K.vector_cases()
+    y, hpp, cpp = cgen.gen_library(cases, True, dict({"wrap_fortran": True}, **opts))
     with open(os.path.join(d, "sub.yaml"), "w") as f:
         yaml.safe_dump(y, f, default_flow_style=False, sort_keys=False)
     open(os.path.join(d, "sub.hpp"), "w").write(hpp)
@@ -150,7 +158,8 @@ def run(tier):
             with cf.ThreadPoolExecutor(common.NCPU) as ex:
                 gens = list(ex.map(lambda t: gen_corpus(base, t), tests))
                 gens += list(ex.map(lambda a: gen_rt(base, a[0], a[1]),
-                                    [("rt-cxx", {}), ("rt-cxx-cfi", {"F_CFI": True})]))
+                                    [("rt-cxx", {}), ("rt-cxx-cfi", {"F_CFI": True}), ("rt-wide", {}),
+                                     ("rt-wide-cfi", {"F_CFI": True})]))
             for name, out, rc, se, user in gens:
                 if rc != 0:
                     raise MachineryError("generation of %s failed: %s" % (name, se[-300:]))
